@@ -327,3 +327,265 @@ Example C03_ex_arch_remove_internal_move : exists s' s'',
   arch_remove sA 0 1 (h 1) 0%N = Ok s' /\ length (new_log sA s') = 5 /\
   internal_move sA 0 2 0 = Ok s'' /\ length (new_log sA s'') = 4.
 Proof. eexists. eexists. ex_tac. Qed.
+
+(* ================================================================================================ *)
+(* 5. HISTORY LEVEL: a whole script's event stream is a word of the per-place bracket language       *)
+(* proofs/LifecycleLang.v: lc_step / lc_run / lc_ok / lc_live -- the Coq rendering of the Python oracle Lifecycle
+   (lib/mgrcheck.py: feed, leaked) that judges the IMPLEMENTATION's event stream: events of palette numbers outside
+   destroy_pals are ignored; C/V need a dead place and make it live; CP/MC need a dead destination and a live source;
+   MA needs both live; D needs a live place and kills it; AA/BR are not bracket events.
+   proofs/LifecycleHist.v: hrun = Refine.mrun with the events of every operation appended to a history (the driver
+   prints the log after each operation and empties it: Refine.mstep); invariant HInv = ManagerInv.MInv + "the history
+   is accepted and the checker's live set is the set of occupied cells of tracked components".
+   Scripts: the unlocked alphabet of C02 (ManagerMain.alpha_b: create, destroyNow, assign typed/untyped with or
+   without value, removeComponent typed/untyped, write through getComponent), same hypotheses as
+   C02_unlocked_refines_on, plus lc_cis_ok on the component table (LifecycleLang.v; each clause is needed, see the
+   counterexamples below):
+     a logging type without destroy function does not share its palette number with a type that has one, and
+     a logging type with a destroy function has a (logging) create function and move constructor.
+   live_comp_place cis s hs x p: p = (archetype, component c, slot) where some live entity k of the SPECIFICATION
+   state x has component c, the type of c is tracked, and (archetype, slot) is where the model locates handle k. *)
+From Mustache Require Import MgrSpec Refine.
+From Mustache.proofs Require Import ManagerInv ManagerMain LifecycleLang LifecycleHist.
+
+(* the history run is the run of C02 with the history as an extra component *)
+Theorem C03_history_run_is_mrun : forall typed n cis ops,
+  (forall s hs hist, hrun typed n cis ops = Ok (s, hs, hist) -> mrun typed n cis ops = Ok (s, hs)) /\
+  (forall s hs, mrun typed n cis ops = Ok (s, hs) -> exists hist, hrun typed n cis ops = Ok (s, hs, hist)).
+Proof. intros typed n cis ops. split; [apply hrun_mrun|apply mrun_hrun]. Qed.
+Print Assumptions C03_history_run_is_mrun.
+
+(* (5a) the history is accepted by the bracket checker -- nothing constructed over a live instance, nothing destroyed,
+   assigned or moved from that is not alive -- and the places alive at the end are exactly the cells of the tracked
+   components of the live entities *)
+Theorem C03_history_brackets : forall typed n cis ops s hs hist,
+  cis_ok cis -> lc_cis_ok cis -> forallb (alpha_b cis) ops = true ->
+  hrun typed n cis ops = Ok (s, hs, hist) -> x_viol (xrun n cis ops) = 0 -> (N.of_nat (length hs) < 16777000)%N ->
+  lc_ok (destroy_pals cis) hist = true /\
+  forall p, In p (lc_live (destroy_pals cis) hist) <-> live_comp_place cis s hs (xrun n cis ops) p.
+Proof. exact history_brackets. Qed.
+Print Assumptions C03_history_brackets.
+
+(* (5b) world destruction after such a script: the history extended by the events of ~World is still accepted and
+   NO place is alive afterwards: every instance was destroyed exactly once, nothing leaks *)
+Theorem C03_history_teardown_no_leak : forall typed n cis ops s hs hist s' r,
+  cis_ok cis -> lc_cis_ok cis -> forallb (alpha_b cis) ops = true ->
+  hrun typed n cis ops = Ok (s, hs, hist) -> x_viol (xrun n cis ops) = 0 -> (N.of_nat (length hs) < 16777000)%N ->
+  step s OTeardown = Ok (s', r) ->
+  lc_ok (destroy_pals cis) (hist ++ rev (log s')) = true /\ lc_live (destroy_pals cis) (hist ++ rev (log s')) = [].
+Proof. exact history_teardown. Qed.
+Print Assumptions C03_history_teardown_no_leak.
+
+(* per operation (the induction step): whatever the checker's live set L was, if it was the set of occupied tracked
+   cells before the operation, the operation's events are accepted from L and lead to the set of occupied tracked
+   cells after it *)
+Theorem C03_operation_preserves_live_cells : forall cis typed s hs al x o s1 out L,
+  MInv cis s hs al x -> lc_cis_ok cis -> alpha_b cis o = true -> x_viol x = 0 -> x_viol (x_step x o) = 0 ->
+  step s (concretize typed hs o) = Ok (s1, out) ->
+  (forall p, In p L <-> aplace cis (archs s) p) ->
+  exists evs L', log s1 = rev evs ++ log s /\ bufs s1 = bufs s /\ tmps s1 = tmps s /\
+    lc_run (destroy_pals cis) L evs = Some L' /\ forall p, In p L' <-> aplace cis (archs s1) p.
+Proof. exact LStep. Qed.
+Print Assumptions C03_operation_preserves_live_cells.
+
+(* Archetype::insert, the function-level event list missing from section 4 *)
+Theorem C03_arch_insert_events : forall s ai h skip s',
+  arch_insert s ai h skip = Ok s' ->
+  exists a, nth_error (archs s) ai = Some a /\
+    log s' = rev (if (skip =? am_mask a)%N then [] else insert_events (cinfos s) ai (length (am_ents a)) h skip (mitems (am_mask a))) ++ log s.
+Proof.
+  intros s ai h0 skip s' H. destruct (arch_insert_tr _ _ _ _ _ H) as (a & Ha & T). exists a. split; [exact Ha|exact (tr_log _ _ _ _ T)].
+Qed.
+Print Assumptions C03_arch_insert_events.
+
+(* a new member of archetype 1 = {1} of sA: one EvC at the new slot; with the whole mask skipped: nothing *)
+Example C03_ex_arch_insert : exists s' s'',
+  arch_insert sA 1 (h 2) 0%N = Ok s' /\ new_log sA s' = [EvC 2 (PArch 1 1 1)] /\
+  arch_insert sA 1 (h 2) 2%N = Ok s'' /\ new_log sA s'' = [] /\
+  insert_events (cinfos sA) 1 1 (h 2) 0%N (mitems 2%N) = [EvC 2 (PArch 1 1 1)].
+Proof. do 2 eexists. ex_tac. Qed.
+
+(* ---- non-vacuity -------------------------------------------------------------------------------- *)
+(* components: 0 trivial, 1 instrumented (palette 2), 2 instrumented with afterAssign/beforeRemove (palette 3),
+   3 described at run time with create+move+move_constructor+destroy (palette 8, flags 29),
+   4 described at run time with create+default value and NO destroy function (palette 9: logs, is not tracked), 5 empty *)
+Definition hx_cis : list cinfo := [pal_info 0 0; pal_info 2 0; pal_info 3 0; dyn_info 8 29; dyn_info 9 33; pal_info 6 0].
+
+(* ids 2 and 3 are recycled; entities move between six archetypes; swap-removes happen on assign (entity 0 leaves
+   slot 0 of three), on destroyNow (entity 2 leaves slot 0 of three) and on removeComponent; a typed assign constructs
+   from a value (EvV); palette 3 fires afterAssign / beforeRemove; an unissued handle and an absent component occur *)
+Definition hx_script : list xop :=
+  [XoCreate 0 6%N [] false; XoCreate 0 6%N [] true; XoCreate 0 14%N [] false; XoCreate 0 6%N [] false;
+   XoSet 0 1 41%Z; XoAssign 0 0 3 None; XoAssign 0 1 3 (Some 7%Z); XoDestroyNow 0 2; XoCreate 0 22%N [] false;
+   XoRemove 0 0 2 false; XoAssign 0 3 4 None; XoSet 3 2 44%Z; XoDestroyNow 0 9; XoRemove 0 1 5 true; XoAssign 0 4 0 (Some 3%Z);
+   XoAssign 0 3 0 None; XoDestroyNow 0 3; XoCreate 0 12%N [] false; XoRemove 0 1 1 true].
+
+Lemma hx_cis_ok : cis_ok hx_cis /\ lc_cis_ok hx_cis.
+Proof.
+  split; [unfold cis_ok, hx_cis; repeat constructor; simpl; intros; congruence|].
+  apply lc_cis_okb_ok. vm_compute. reflexivity.
+Qed.
+
+Definition count_ev (f : event -> bool) (l : list event) : nat := length (filter f l).
+Definition is_ctor (e : event) : bool := match e with EvC _ _ | EvV _ _ | EvMC _ _ _ | EvCP _ _ _ => true | _ => false end.
+Definition is_dtor (e : event) : bool := match e with EvD _ _ => true | _ => false end.
+Definition is_ma (e : event) : bool := match e with EvMA _ _ _ => true | _ => false end.
+Definition is_v (e : event) : bool := match e with EvV _ _ => true | _ => false end.
+
+Example C03_history_nonvacuous :
+  cis_ok hx_cis /\ lc_cis_ok hx_cis /\ forallb (alpha_b hx_cis) hx_script = true /\ x_viol (xrun 1 hx_cis hx_script) = 0 /\
+  destroy_pals hx_cis = [2; 3; 8] /\
+  (forall typed, exists s hs hist s' r,
+     hrun typed 1 hx_cis hx_script = Ok (s, hs, hist) /\ (N.of_nat (length hs) < 16777000)%N /\
+     hs = [(0, 0); (1, 0); (2, 0); (3, 0); (2, 1); (3, 1)]%N /\ map (is_valid s) hs = [true; true; false; false; true; true] /\
+     map am_mask (archs s) = [6; 14; 22; 10; 23; 12]%N /\
+     map am_ents (archs s) = [[]; []; []; [(0, 0)]; [(2, 1)]; [(3, 1); (1, 0)]]%N /\
+     length hist = 68 /\ count_ev is_ma hist = 7 /\ count_ev is_v hist = (if typed then 1 else 0) /\
+     lc_ok (destroy_pals hx_cis) hist = true /\
+     lc_live (destroy_pals hx_cis) hist = [PArch 5 3 1; PArch 5 2 1; PArch 5 3 0; PArch 5 2 0; PArch 4 2 0; PArch 4 1 0; PArch 3 3 0; PArch 3 1 0] /\
+     step s OTeardown = Ok (s', r) /\ count_ev is_dtor (rev (log s')) = 8 /\
+     lc_live (destroy_pals hx_cis) (hist ++ rev (log s')) = []).
+Proof.
+  split; [exact (proj1 hx_cis_ok)|]. split; [exact (proj2 hx_cis_ok)|]. split; [vm_compute; reflexivity|].
+  split; [vm_compute; reflexivity|]. split; [vm_compute; reflexivity|].
+  intros typed. destruct typed; do 5 eexists; ex_tac.
+Qed.
+
+(* the hypotheses of the per-operation theorem on a reachable state: entity 0 sits in slot 0 of three of archetype
+   {1,2}; an assign of the run-time described component 3 swap-removes it *)
+Example C03_operation_nonvacuous : exists s hs hist al x s1 out,
+  hrun true 1 hx_cis (firstn 5 hx_script) = Ok (s, hs, hist) /\ x = xrun 1 hx_cis (firstn 5 hx_script) /\
+  MInv hx_cis s hs al x /\ alpha_b hx_cis (XoAssign 0 0 3 None) = true /\ x_viol x = 0 /\
+  x_viol (x_step x (XoAssign 0 0 3 None)) = 0 /\
+  step s (concretize true hs (XoAssign 0 0 3 None)) = Ok (s1, out) /\
+  (forall p, In p (lc_live (destroy_pals hx_cis) hist) <-> aplace hx_cis (archs s) p).
+Proof.
+  assert (E6 : exists r, hrun true 1 hx_cis (firstn 5 hx_script ++ [XoAssign 0 0 3 None]) = Ok r) by (eexists; vm_compute; reflexivity).
+  destruct E6 as (r6 & E6). apply hrun_snoc in E6. destruct E6 as (s & hs & hist & E & Hs).
+  unfold hstep in Hs. apply bind_ok in Hs. destruct Hs as ((s1, out) & Hst & _).
+  assert (Ha : forallb (alpha_b hx_cis) (firstn 5 hx_script) = true) by (vm_compute; reflexivity).
+  assert (Hb : within (length hs)).
+  { assert (El : length hs = 4) by (apply (f_equal (fun r => match r with Ok (_, hs0, _) => length hs0 | Err _ => 0 end)) in E;
+      vm_compute in E; symmetry; exact E). rewrite El. vm_compute. reflexivity. }
+  assert (Hv : x_viol (fold_left x_step (firstn 5 hx_script) (x_init 1 hx_cis)) = 0) by (vm_compute; reflexivity).
+  pose proof E as E'. rewrite hrun_unfold in E'.
+  destruct (HInv_run hx_cis true (firstn 5 hx_script) (init 1 hx_cis) [] [] (x_init 1 hx_cis) [] s hs hist
+              (HInv_init 1 hx_cis) (proj1 hx_cis_ok) (proj2 hx_cis_ok) Ha eq_refl Hv E' Hb) as (al & [HI _ _ _ (L & Hr & HL)]).
+  rewrite <- xrun_unfold in HI.
+  exists s, hs, hist, al, (xrun 1 hx_cis (firstn 5 hx_script)), s1, out. split; [exact E|]. split; [reflexivity|]. split; [exact HI|].
+  split; [vm_compute; reflexivity|]. split; [vm_compute; reflexivity|]. split; [vm_compute; reflexivity|]. split; [exact Hst|].
+  unfold lc_live. rewrite Hr. exact HL.
+Qed.
+
+(* ---- each clause of lc_cis_ok is needed ---------------------------------------------------------- *)
+Definition hist_of (cis : list cinfo) (ops : list xop) : list event :=
+  match hrun false 1 cis ops with Ok (_, _, hist) => hist | Err _ => [] end.
+Definition hist_td (cis : list cinfo) (ops : list xop) : list event :=
+  match hrun false 1 cis ops with
+  | Ok (s, _, hist) => match step s OTeardown with Ok (s', _) => hist ++ rev (log s') | Err _ => [] end
+  | Err _ => [] end.
+
+(* a type with a logging destroy function and no create function (flags 8+16): its destructor runs on a cell no
+   constructor event was seen for *)
+Example C03_destroy_without_create_is_rejected :
+  let cis := [dyn_info 8 24] in let ops := [XoCreate 0 1%N [] false; XoDestroyNow 0 0] in
+  cis_ok cis /\ forallb (alpha_b cis) ops = true /\ x_viol (xrun 1 cis ops) = 0 /\ refines_on false 1 cis ops = true /\
+  hist_of cis ops = [EvD 8 (PArch 0 0 0)] /\ lc_ok (destroy_pals cis) (hist_of cis ops) = false.
+Proof. split; [repeat constructor; simpl; intros; congruence|]. vm_compute. repeat split. Qed.
+
+(* a type with create and destroy but no move constructor (flags 1+16): the instance is memcpy'd to the new
+   archetype without an event, the old cell is destroyed, and the entity's destruction later hits a cell the checker
+   never saw constructed *)
+Example C03_destroy_without_move_constructor_is_rejected :
+  let cis := [dyn_info 8 17; pal_info 0 0] in let ops := [XoCreate 0 1%N [] false; XoAssign 0 0 1 None; XoDestroyNow 0 0] in
+  cis_ok cis /\ forallb (alpha_b cis) ops = true /\ x_viol (xrun 1 cis ops) = 0 /\ refines_on false 1 cis ops = true /\
+  hist_of cis ops = [EvC 8 (PArch 0 0 0); EvD 8 (PArch 0 0 0); EvD 8 (PArch 1 0 0)] /\
+  lc_ok (destroy_pals cis) (hist_of cis ops) = false.
+Proof. split; [repeat constructor; simpl; intros; congruence|]. vm_compute. repeat split. Qed.
+
+(* two types share palette number 8, one with a destroy function and one without: the constructor of the second is
+   taken for a tracked event and its instance is reported as leaked after the world is gone *)
+Example C03_shared_palette_number_reports_a_leak :
+  let cis := [dyn_info 8 1; dyn_info 8 29] in let ops := [XoCreate 0 1%N [] false] in
+  cis_ok cis /\ forallb (alpha_b cis) ops = true /\ x_viol (xrun 1 cis ops) = 0 /\
+  lc_ok (destroy_pals cis) (hist_td cis ops) = true /\ lc_live (destroy_pals cis) (hist_td cis ops) = [PArch 0 0 0].
+Proof. split; [repeat constructor; simpl; intros; congruence|]. vm_compute. repeat split. Qed.
+
+(* ================================================================================================ *)
+(* 6. HISTORY LEVEL with command buffers: the world is destroyed while LOCKED, with parked temporaries *)
+(* proofs/LifecycleLocked.v.  After any script of the unlocked alphabet the manager is locked and ANY sequence of
+   recording operations follows (lk_op: assign typed/untyped, default or value, through any handle -- alive, dead or
+   never issued -- and any thread; removeComponent, destroy, destroyNow; nested lock), with no unlock; orun runs model
+   operations and appends their events to the history.  Then ~World runs (OTeardown: archetypes first, then the
+   command buffers).  The complete history is accepted by the bracket checker and no place stays alive: every cell
+   and every temporary parked in a command buffer is destroyed exactly once.
+   NOT proved at history level: sections closed by unlock (the flush moves temporaries into archetypes); what is
+   missing is stated at the end of proofs/LifecycleLocked.v -- the refinement invariant of the locked alphabet for
+   the Manager model, because the checker accepts a flush only under the contract of the deferred interface. *)
+From Mustache.proofs Require Import LifecycleLocked.
+
+Theorem C03_history_locked_teardown_no_leak : forall typed n cis ops s hs hist lops s2 hist2 s' r,
+  cis_ok cis -> lc_cis_ok cis -> forallb (alpha_b cis) ops = true ->
+  hrun typed n cis ops = Ok (s, hs, hist) -> x_viol (xrun n cis ops) = 0 -> (N.of_nat (length hs) < 16777000)%N ->
+  forallb lk_op lops = true -> orun (OLock :: lops) (s, hist) = Ok (s2, hist2) ->
+  step s2 OTeardown = Ok (s', r) ->
+  lc_ok (destroy_pals cis) (hist2 ++ rev (log s')) = true /\ lc_live (destroy_pals cis) (hist2 ++ rev (log s')) = [].
+Proof. exact locked_teardown. Qed.
+Print Assumptions C03_history_locked_teardown_no_leak.
+
+(* one recording operation: the invariant of a locked recording phase (LK: the live archetype cells are the occupied
+   tracked cells, the live temporaries are those of the recorded assigns of tracked types) is kept and the operation's
+   events are accepted *)
+Theorem C03_recording_preserves_live_places : forall cis s L o s1 out,
+  lc_cis_ok cis -> LK cis s L -> lk_op o = true -> step s o = Ok (s1, out) ->
+  exists L', lc_run (destroy_pals cis) L (rev (log s1)) = Some L' /\ LK cis (set_log s1 []) L'.
+Proof. exact LK_step. Qed.
+Print Assumptions C03_recording_preserves_live_places.
+
+(* two threads; after hx_script: thread 1 records an assign for entity (3,1), thread 0 a typed assign with a value for
+   entity (0,0) and a destroyNow, the lock is nested, thread 1 records an assign through the dead handle (2,0), an
+   assign of the untracked run-time type and a second typed assign of component 1 to the same entity *)
+Definition hx_locked : list op :=
+  [OAssign 1 (3, 1)%N 1 ADefault false; OAssign 0 (0, 0)%N 2 (AValue 5%Z) true; ODestroyNow 0 (1, 0)%N; OLock;
+   OAssign 1 (2, 0)%N 3 (AValue 9%Z) false; ORemove 0 (3, 1)%N 2 false; OAssign 1 (3, 1)%N 4 ADefault false; ODestroy 1 (0, 0)%N;
+   OAssign 1 (3, 1)%N 1 (AValue 8%Z) true].
+
+Example C03_history_locked_nonvacuous :
+  forallb lk_op hx_locked = true /\
+  exists s hs hist s2 hist2 s' r,
+    hrun true 2 hx_cis hx_script = Ok (s, hs, hist) /\ (N.of_nat (length hs) < 16777000)%N /\
+    orun (OLock :: hx_locked) (s, hist) = Ok (s2, hist2) /\ lockc s2 = 2 /\
+    bufs s2 = [[AAssign (0, 0) 2 0; ADestroyNow (1, 0); ARemove (3, 1) 2];
+               [AAssign (3, 1) 1 0; AAssign (2, 0) 3 1; AAssign (3, 1) 4 2; ADestroy (0, 0); AAssign (3, 1) 1 3]]%N /\
+    skipn (length hist) hist2 = [EvC 2 (PTmp 1 0); EvV 3 (PTmp 0 0); EvC 8 (PTmp 1 1); EvC 9 (PTmp 1 2); EvV 2 (PTmp 1 3)] /\
+    firstn 4 (lc_live (destroy_pals hx_cis) hist2) = [PTmp 1 3; PTmp 1 1; PTmp 0 0; PTmp 1 0] /\
+    step s2 OTeardown = Ok (s', r) /\
+    filter is_tmp_dtor (rev (log s')) = [EvD 3 (PTmp 0 0); EvD 2 (PTmp 1 0); EvD 8 (PTmp 1 1); EvD 2 (PTmp 1 3)] /\
+    count_ev is_dtor (rev (log s')) = 12 /\
+    lc_ok (destroy_pals hx_cis) (hist2 ++ rev (log s')) = true /\ lc_live (destroy_pals hx_cis) (hist2 ++ rev (log s')) = [].
+Proof. split; [vm_compute; reflexivity|]. do 7 eexists. ex_tac. Qed.
+
+(* the hypotheses of the per-operation theorem: the state right after the first lock satisfies LK *)
+Example C03_recording_nonvacuous : exists s hs hist L s1 out,
+  hrun true 2 hx_cis hx_script = Ok (s, hs, hist) /\ LK hx_cis (set_log (do_lock s) []) L /\
+  step (set_log (do_lock s) []) (OAssign 1 (3, 1)%N 1 ADefault false) = Ok (s1, out).
+Proof.
+  assert (E6 : exists r, orun [OLock; OAssign 1 (3, 1)%N 1 ADefault false]
+                 (match hrun true 2 hx_cis hx_script with Ok (s, _, hist) => (s, hist) | Err _ => (init 0 [], []) end) = Ok r)
+    by (eexists; vm_compute; reflexivity).
+  destruct E6 as (r6 & E6).
+  destruct (hrun true 2 hx_cis hx_script) as [[[s hs] hist]|] eqn:E; [|vm_compute in E6; discriminate].
+  assert (Ha : forallb (alpha_b hx_cis) hx_script = true) by (vm_compute; reflexivity).
+  assert (Hb : within (length hs)).
+  { assert (El : length hs = 6) by (apply (f_equal (fun r => match r with Ok (_, hs0, _) => length hs0 | Err _ => 0 end)) in E;
+      vm_compute in E; symmetry; exact E). rewrite El. vm_compute. reflexivity. }
+  assert (Hv : x_viol (fold_left x_step hx_script (x_init 2 hx_cis)) = 0) by (vm_compute; reflexivity).
+  pose proof E as E'. rewrite hrun_unfold in E'.
+  destruct (HInv_run hx_cis true hx_script (init 2 hx_cis) [] [] (x_init 2 hx_cis) [] s hs hist
+              (HInv_init 2 hx_cis) (proj1 hx_cis_ok) (proj2 hx_cis_ok) Ha eq_refl Hv E' Hb) as (al & [HI Hlog Hbufs Htmps (L & Hr & HL)]).
+  unfold orun in E6. cbn [fold_res] in E6. apply bind_ok in E6. destruct E6 as (st1 & H1 & E6).
+  unfold ostep in H1 at 1. cbn [step] in H1. cbv beta iota in H1. cbn [bind fst] in H1. inversion H1; subst st1; clear H1.
+  apply bind_ok in E6. destruct E6 as (st2 & H2 & _). unfold ostep in H2. apply bind_ok in H2. destruct H2 as ((s1, out) & Hst & _).
+  exists s, hs, hist, L, s1, out. split; [reflexivity|]. split; [|exact Hst].
+  apply (LK_first hx_cis s hs al _ L HI Hlog Hbufs Htmps HL).
+Qed.
